@@ -263,18 +263,18 @@ package jsonrpc2
 // ---------------------------------------------------------------------------------------------
 // toInt64 is Go's float64 -> int64 conversion (uninterpreted here; its exactness on integers is the raw lemma
 // specs/lemmas/C19-id-exactness*.smt2).
-//@ func MakeID [C19]
+//@ func MakeID [C19, C02, C01]
 //@   nopanic
 //@   ensures @no-id v == nil ==> result.1 == nil && result.0.value == nil
 //@   ensures @string-id typeIs(v, string) ==> result.1 == nil && typeIs(result.0.value, string) && result.0.value.(string) == v.(string)
 //@   ensures @number-id typeIs(v, float64) ==> result.1 == nil && typeIs(result.0.value, int64) && result.0.value.(int64) == toInt64(v.(float64))
 //@   ensures @other-types-rejected v != nil && !typeIs(v, string) && !typeIs(v, float64) ==> result.1 != nil && errIs(result.1, ErrParse) && result.0.value == nil
 
-//@ func StringID [C19]
+//@ func StringID [C19, C02, C01]
 //@   ensures typeIs(result.value, string) && result.value.(string) == s
-//@ func Int64ID [C19]
+//@ func Int64ID [C19, C02, C01]
 //@   ensures typeIs(result.value, int64) && result.value.(int64) == i
-//@ func (ID).IsValid [C19]
+//@ func (ID).IsValid [C19, C02, C01]
 //@   ensures result <==> id.value != nil
 
 // (*WireError).Is: two wire errors are the same error iff their codes agree.
@@ -283,11 +283,11 @@ package jsonrpc2
 //@   ensures @code-equality result <==> (typeIs(other, *WireError) && other.(*WireError) != nil && err.Code == other.(*WireError).Code)
 
 // marshal copies id, method and params (and result) to the wire form unchanged.
-//@ func (*Request).marshal [C19]
+//@ func (*Request).marshal [C19, C02, C01]
 //@   requires msg != nil && to != nil
 //@   modifies to.ID, to.Method, to.Params
 //@   ensures @copied to.ID == msg.ID.value && to.Method == msg.Method && to.Params == msg.Params
-//@ func (*Response).marshal [C19]
+//@ func (*Response).marshal [C19, C02, C01]
 //@   track toWireError as wireErr
 //@   requires msg != nil && to != nil
 //@   modifies to.ID, to.Error, to.Result
@@ -298,7 +298,7 @@ package jsonrpc2
 // id, result and (only if present) the error.
 // decodeID: no id => the zero ID; an id that strconv.ParseInt accepts (an integer in int64 range, ParseInt trusted)
 // becomes exactly that integer, without any float64 step; everything else goes through MakeID.
-//@ func decodeID [C19]
+//@ func decodeID [C19, C02, C01]
 //@   track encoding/json.Unmarshal as stdDecCS
 //@   ensures @peer-data-is-decoded-case-sensitively calls(stdDecCS) == 0
 //@   track strconv.ParseInt as pint
@@ -308,7 +308,7 @@ package jsonrpc2
 //@   ensures @integer-id-exact-value calls(pint) == 1 && callResult(pint, 1, 1) == nil ==> result.1 == nil && typeIs(result.0.value, int64) && result.0.value.(int64) == callResult(pint, 1, 0) && calls(mk) == 0
 //@   ensures @fallback-is-makeid result.1 == nil && calls(pint) == 1 && callResult(pint, 1, 1) != nil ==> calls(mk) == 1 && result.0 == callResult(mk, 1, 0)
 
-//@ func DecodeMessage [C19]
+//@ func DecodeMessage [C19, C02, C01]
 //@   track encoding/json.Unmarshal as stdDecCS
 //@   ensures @peer-data-is-decoded-case-sensitively calls(stdDecCS) == 0
 //@   track decodeID as mkid
